@@ -283,29 +283,32 @@ NEEDS_PYTEST_PATCH = [
 ]
 
 
-MINIMIZER_PATCH = [
+MINIMIZER_PATCH = [  # against the tree at 73cd0bc (statements that *carry* a reference assertion are already protected there)
     (
-        "def _directly_asserted_variables(test_case: tc.TestCase) -> set[str]:\n",
+        "def _carries_reference_assertion(statement: tc.Statement) -> bool:\n",
         "def _is_assertion_protected(statement: tc.Statement, protected: set[str]) -> bool:\n"
-        "    \"\"\"A statement must stay if it carries assertions, binds an asserted variable, or touches one.\n\n"
-        "    A call on (or with) an asserted object may change the state a later assertion observes;\n"
-        "    removing it keeps the coverage but makes the already generated assertion stale.\n"
+        "    \"\"\"A statement must stay if it binds an asserted variable, carries an assertion, or touches an asserted object.\n\n"
+        "    A call on (or with) an asserted object may change the state a later assertion observes; removing\n"
+        "    it keeps the coverage but makes the already generated assertion stale.  The call itself need not\n"
+        "    carry an assertion (mutation-analysis keeps only the assertions that kill a mutant).\n"
         "    \"\"\"\n"
         "    return (\n"
-        "        bool(statement.assertions)\n"
-        "        or statement.bound_variable in protected\n"
+        "        statement.bound_variable in protected\n"
+        "        or _carries_reference_assertion(statement)\n"
         "        or bool(statement.used_variables() & protected)\n"
         "    )\n\n\n"
-        "def _directly_asserted_variables(test_case: tc.TestCase) -> set[str]:\n",
+        "def _carries_reference_assertion(statement: tc.Statement) -> bool:\n",
     ),
     (
-        "                if statement.bound_variable in protected:\n",
+        "                if statement.bound_variable in protected or _carries_reference_assertion(statement):\n",
         "                if _is_assertion_protected(statement, protected):\n",
         2,
     ),
     (
-        "                    if test_case.get_statement(i).bound_variable in protected:\n",
-        "                    if _is_assertion_protected(test_case.get_statement(i), protected):\n",
+        "                    if statement.bound_variable in protected or _carries_reference_assertion(\n"
+        "                        statement\n"
+        "                    ):\n",
+        "                    if _is_assertion_protected(statement, protected):\n",
     ),
 ]
 
